@@ -208,7 +208,6 @@ pub fn run(tier: &str) -> i32 {
     let t0 = Instant::now();
     let mut o = Outcome::new("C13", tier, "fault_enumeration");
     let q = tier == "quick";
-    let deadline = t0 + Duration::from_secs_f64(if q { 34.0 } else { 1100.0 });
     let d = Cfg::default2();
     let cfgs: Vec<(&str, Cfg, bool, usize)> = vec![
         ("auto-persist", d.clone(), false, if q { 2 } else { 3 }),
@@ -223,7 +222,8 @@ pub fn run(tier: &str) -> i32 {
         errno: i32,
         short: Option<usize>,
     }
-    let mut jobs: Vec<Job> = vec![];
+    // the fault-free run of every program (in parallel) tells how many journal operations there are to fail
+    let mut fulls: Vec<(usize, Vec<Op>)> = vec![];
     let mut programs = 0;
     for (ci, (_name, cfg, tx, depth)) in cfgs.iter().enumerate() {
         let prop = SeqProp::new("C13", cfg.clone(), alpha(*tx));
@@ -236,21 +236,31 @@ pub fn run(tier: &str) -> i32 {
             if *tx {
                 full.push(Op::parse("tx [x.a=1 y.b=2]").unwrap());
             }
-            // how many journal operations does the fault-free run issue?
-            let run = run_driver(cfg, &full, Mode::Log, &[("FJV_DRV_CONTINUE_ON_ERR", "1".into())]);
-            let writes: Vec<(usize, u64)> = run.events.iter().filter(|e| e.jop > 0 && e.n >= run.init_counter).map(|e| (e.jop, if e.call == "write" { e.len } else { 0 })).collect();
-            for (jop, wlen) in writes {
-                for errno in [5, 28] {
-                    jobs.push(Job { ci, prog: full.clone(), n: jop, errno, short: None });
-                    if wlen > 1 && errno == 5 {
-                        jobs.push(Job { ci, prog: full.clone(), n: jop, errno, short: Some(1) });
-                        jobs.push(Job { ci, prog: full.clone(), n: jop, errno, short: Some((wlen / 2) as usize) });
-                    }
+            fulls.push((ci, full));
+        }
+    }
+    let jobs_m: Mutex<Vec<Job>> = Mutex::new(vec![]);
+    par_for(fulls.len(), threads(), Instant::now() + Duration::from_secs(3600), |i| {
+        let (ci, full) = &fulls[i];
+        let run = run_driver(&cfgs[*ci].1, full, Mode::Log, &[("FJV_DRV_CONTINUE_ON_ERR", "1".into())]);
+        let writes: Vec<(usize, u64)> = run.events.iter().filter(|e| e.jop > 0 && e.n >= run.init_counter).map(|e| (e.jop, if e.call == "write" { e.len } else { 0 })).collect();
+        let mut mine = vec![];
+        for (jop, wlen) in writes {
+            for errno in [5, 28] {
+                mine.push(Job { ci: *ci, prog: full.clone(), n: jop, errno, short: None });
+                if wlen > 1 && errno == 5 {
+                    mine.push(Job { ci: *ci, prog: full.clone(), n: jop, errno, short: Some(1) });
+                    mine.push(Job { ci: *ci, prog: full.clone(), n: jop, errno, short: Some((wlen / 2) as usize) });
                 }
             }
         }
-    }
-    jobs.sort_by_key(|j| j.prog.len());
+        jobs_m.lock().unwrap().extend(mine);
+    });
+    let mut jobs = jobs_m.into_inner().unwrap();
+    // deterministic order (shortest programs first, then by text)
+    jobs.sort_by_key(|j| (j.prog.len(), j.ci, j.prog.iter().map(|o| o.to_string()).collect::<Vec<_>>().join(";"), j.n, j.errno, j.short));
+    // the injection budget starts once the job list exists
+    let deadline = Instant::now() + Duration::from_secs_f64(if q { 30.0 } else { 1100.0 });
     let findings: Mutex<Vec<Finding>> = Mutex::new(vec![]);
     let tally = Mutex::new(BTreeMap::<String, u64>::new());
     let (done, to) = par_for(jobs.len(), threads(), deadline, |ji| {
